@@ -13,13 +13,52 @@ package reader
 //@ changhost replicateChannelHandler.apiEventChan events
 
 // The ts manager singleton (sync.Once initialisation): assumed to return the non-nil instance.
+//@ ufunc theTSM () Int
 //@ trusted func GetTSManager
-//@   ensures result != nil && result.channelTS2 != nil && result.channelTSLocks != nil && result.targetChannelChans != nil
+//@   ensures result == as(theTSM(), "*tsManager") && result != nil && result.channelTS2 != nil && result.channelTSLocks != nil && result.targetChannelChans != nil
 //@   modifies nothing
 
 // handlePack is not yet verified as a whole; at its call site only this frame is assumed:
 // it never enqueues on a downstream output stream itself (it returns the pack or forwards it).
-//@ trusted func (*replicateChannelHandler).handlePack
+// the channel clock of the handler's downstream channel
+//@ spec hpCts(r *replicateChannelHandler) uint64 = tsCts(as(theTSM(), "*tsManager"), r.replicateID + "." + r.targetPChannel)
+//@ spec hpLts(r *replicateChannelHandler) uint64 = tsLts(as(theTSM(), "*tsManager"), r.replicateID + "." + r.targetPChannel)
+// ---- C01: which message kinds are replicated as data ----------------------------------------------------
+//@ func isSupportedMsgType
+//@   props C01 C03
+//@   ensures [insert-delete-drops-and-import] result == (msgType == commonpb.MsgType_Insert || msgType == commonpb.MsgType_Delete || msgType == commonpb.MsgType_DropCollection || msgType == commonpb.MsgType_DropPartition || msgType == commonpb.MsgType_Import)
+//@   modifies nothing
+//@   panics never
+//@   inline
+
+// what every part of handlePack keeps: the last tick is only changed by the final bookkeeping, the clock only grows
+//@ spec hpInv(r *replicateChannelHandler) bool = tsWf(as(theTSM(), "*tsManager")) && hpLts(r) == old(hpLts(r)) && hpCts(r) >= old(hpCts(r)) && hpLts(r) <= hpCts(r) && hpCts(r) < 4611686018427387904
+// timestamps are TSO hybrid timestamps (physical ms * 2^18 + logical): far below 2^62
+//@ spec tsoBounded(pack *msgstream.MsgPack) bool = pack.BeginTs < 4611686018427387904 && pack.EndTs < 4611686018427387904 && (forall k int :: {pack.StartPositions[k]} 0 <= k && k < len(pack.StartPositions) && pack.StartPositions[k] != nil ==> pack.StartPositions[k].Timestamp < 4611686018427387904)
+//@ func (*replicateChannelHandler).handlePack
+//@   props C03
+//@   requires r != nil && pack != nil
+// the channel clock is well formed and lts <= cts: established by every function that writes the clock (their
+// postconditions above); its critical sections are serialised by channelTSLocks[key]
+//@   assumes tsWf(as(theTSM(), "*tsManager")) && hpLts(r) <= hpCts(r)
+// timestamps are TSO hybrid timestamps (physical ms * 2^18 + logical), far below 2^62: shifting never wraps
+//@   assumes hpCts(r) < 4611686018427387904 && tsoBounded(pack)
+//@   splitposts
+//@   private tsInfo.* tsManager.* umaps(string;*tsInfo) replicateChannelHandler.replicateID replicateChannelHandler.targetPChannel out
+//@   ensures [the-last-tick-never-decreases] hpLts(r) >= old(hpLts(r))
+//@   ensures [the-clock-never-goes-back] hpCts(r) >= old(hpCts(r))
+//@   ensures [the-last-tick-is-covered-by-the-clock] hpLts(r) <= hpCts(r)
+//@   loop 1 invariant hpInv(r) && pack.EndTs == old(pack.EndTs) && pack.BeginTs == old(pack.BeginTs) && pack.StartPositions == old(pack.StartPositions) && preservedArrays("*msgpb.MsgPosition") && preservedFields(msgpb.MsgPosition.Timestamp)
+//@   loop 2 invariant hpInv(r)
+//@   loop 2 invariant miniTS <= pack.EndTs
+//@   loop 2 invariant pack.EndTs == old(pack.EndTs) && pack.BeginTs == old(pack.BeginTs) && pack.StartPositions == old(pack.StartPositions)
+//@   loop 2 invariant preservedArrays("*msgpb.MsgPosition") && preservedFields(msgpb.MsgPosition.Timestamp)
+//@   loop 3 invariant tsWf(as(theTSM(), "*tsManager"))
+//@   loop 3 invariant hpLts(r) == old(hpLts(r))
+//@   loop 3 invariant hpCts(r) >= old(hpCts(r))
+//@   loop 3 invariant hpLts(r) <= hpCts(r) && hpCts(r) < 4611686018427387904
+//@   loop 4 invariant hpInv(r)
+//@   loop 5 invariant hpInv(r)
 //@   modifies * except out
 
 //@ func FormatChanKey
@@ -46,7 +85,7 @@ package reader
 // ---- C06 / C01: hand-over of one pack from a stream to the downstream output ----------------------
 //@ func (*replicateChannelHandler).innerHandleReplicateMsg
 //@   props C06 C01
-//@   requires r != nil && msg != nil
+//@   requires r != nil && msg != nil && msg.MsgPack != nil
 //@   ensures [at-most-one-pack] len(out) == old(len(out)) || len(out) == old(len(out)) + 1
 //@   ensures [labelled-with-its-stream] len(out) == old(len(out)) + 1 ==> out[old(len(out))].TaskID == msg.TaskID && out[old(len(out))].CollectionID == msg.CollectionID && out[old(len(out))].CollectionName == msg.CollectionName && out[old(len(out))].PChannelName == msg.PChannelName
 //@   ensures forall i int :: 0 <= i && i < old(len(out)) ==> out[i] == old(out[i])
@@ -88,3 +127,121 @@ package reader
 //@   props C02 C19
 //@   modifies nothing
 //@   panics never
+
+// ---- C03: timestamps of one message / one pack are reset consistently ---------------------------------
+//@ spec supportedDyn(m msgstream.TsMsg) bool = typeIs(m, "*msgstream.InsertMsg") || typeIs(m, "*msgstream.DeleteMsg") || typeIs(m, "*msgstream.DropCollectionMsg") || typeIs(m, "*msgstream.DropPartitionMsg") || typeIs(m, "*msgstream.ImportMsg")
+
+//@ func resetMsgTimestamp
+//@   props C03
+//@   ensures [only-supported-messages-are-reset] supportedDyn(msg)
+//@   ensures [begin-end-and-position-time-agree] msgBeginTs(msg) == newTimestamp && msgEndTs(msg) == newTimestamp && msgPosition(msg) != nil && msgPosition(msg).Timestamp == newTimestamp
+//@   ensures [the-position-is-a-new-object] freshRef(msgPosition(msg))
+//@   ensures [position-keeps-channel-and-message-id] old(msgPosition(msg)) != nil ==> msgPosition(msg).ChannelName == old(msgPosition(msg).ChannelName) && msgPosition(msg).MsgID == old(msgPosition(msg).MsgID) && msgPosition(msg).MsgGroup == old(msgPosition(msg).MsgGroup)
+//@   ensures [insert-rows-carry-the-new-time] typeIs(msg, "*msgstream.InsertMsg") ==> len(cast(msg, "*msgstream.InsertMsg").Timestamps) == old(len(cast(msg, "*msgstream.InsertMsg").Timestamps)) && (forall i int :: 0 <= i && i < len(cast(msg, "*msgstream.InsertMsg").Timestamps) ==> cast(msg, "*msgstream.InsertMsg").Timestamps[i] == newTimestamp)
+//@   ensures [delete-rows-carry-the-new-time] typeIs(msg, "*msgstream.DeleteMsg") ==> len(cast(msg, "*msgstream.DeleteMsg").Timestamps) == old(len(cast(msg, "*msgstream.DeleteMsg").Timestamps)) && (forall i int :: 0 <= i && i < len(cast(msg, "*msgstream.DeleteMsg").Timestamps) ==> cast(msg, "*msgstream.DeleteMsg").Timestamps[i] == newTimestamp)
+//@   modifies cast(msg, "*msgstream.InsertMsg").BaseMsg, cast(msg, "*msgstream.DeleteMsg").BaseMsg, cast(msg, "*msgstream.DropCollectionMsg").BaseMsg, cast(msg, "*msgstream.DropPartitionMsg").BaseMsg, cast(msg, "*msgstream.ImportMsg").BaseMsg, cast(msg, "*msgstream.InsertMsg").InsertRequest.Timestamps, cast(msg, "*msgstream.DeleteMsg").DeleteRequest.Timestamps, fresh([]uint64), fresh(msgpb.MsgPosition.*)
+//@   unreachable return@1
+//@   loop 1 invariant preservedArrays(uint64) && (forall j int :: 0 <= j && j <= rangeindex ==> realMsg.Timestamps[j] == newTimestamp)
+//@   loop 2 invariant preservedArrays(uint64) && (forall j int :: 0 <= j && j <= rangeindex ==> realMsg.Timestamps[j] == newTimestamp)
+
+// the messages of a pack are different objects (a pack never lists one message twice) and the shifted times fit in 64 bits
+//@ spec packMsgsWf(pack *msgstream.MsgPack) bool = (forall i int :: {pack.Msgs[i]} 0 <= i && i < len(pack.Msgs) ==> msgKnown(pack.Msgs[i]) && unbox(pack.Msgs[i], "ref") != nil) && (forall i int, j int :: {pack.Msgs[i], pack.Msgs[j]} 0 <= i && i < j && j < len(pack.Msgs) ==> unbox(pack.Msgs[i], "ref") != unbox(pack.Msgs[j], "ref"))
+//@ spec packPosWf(pack *msgstream.MsgPack) bool = (forall k int :: {pack.StartPositions[k]} 0 <= k && k < len(pack.StartPositions) ==> pack.StartPositions[k] != nil) && (forall k int :: {pack.EndPositions[k]} 0 <= k && k < len(pack.EndPositions) ==> pack.EndPositions[k] != nil) && (forall a int, b int :: {pack.StartPositions[a], pack.EndPositions[b]} 0 <= a && a < len(pack.StartPositions) && 0 <= b && b < len(pack.EndPositions) ==> pack.StartPositions[a] != pack.EndPositions[b])
+// position objects that existed before keep everything but their time
+//@ spec posFramed() bool = preservedFields(msgpb.MsgPosition.ChannelName) && preservedFields(msgpb.MsgPosition.MsgID) && preservedFields(msgpb.MsgPosition.MsgGroup) && preservedFields(msgpb.MsgPosition.state) && preservedFields(msgpb.MsgPosition.sizeCache) && preservedFields(msgpb.MsgPosition.unknownFields)
+//@ spec resetWf(pack *msgstream.MsgPack, n uint64) bool = packMsgsWf(pack) && packPosWf(pack) && n + len(pack.Msgs) < 18446744073709551615
+
+// deltasOk: the shift table keeps equal times equal and makes later ones larger
+//@ spec deltasBounded(deltas []uint64, upto int) bool = forall j int :: {deltas[j]} 0 <= j && j <= upto ==> 1 <= deltas[j] && deltas[j] <= j + 1
+//@ spec deltasOk(pack *msgstream.MsgPack, deltas []uint64, upto int) bool = (forall j int :: {deltas[j]} 1 <= j && j <= upto ==> (old(msgBeginTs(pack.Msgs[j])) == old(msgBeginTs(pack.Msgs[j - 1])) ==> deltas[j] == deltas[j - 1]) && (old(msgBeginTs(pack.Msgs[j])) != old(msgBeginTs(pack.Msgs[j - 1])) ==> deltas[j] == j + 1))
+
+//@ func resetMsgPackTimestamp
+//@   props C03
+//@   requires pack != nil
+//@   ensures [refuses-a-pack-that-starts-later-or-is-empty] result == !(old(pack.BeginTs) > newTimestamp || old(len(pack.Msgs)) == 0)
+//@   ensures [a-refused-pack-is-untouched] !result ==> pack.BeginTs == old(pack.BeginTs) && pack.EndTs == old(pack.EndTs) && (forall i int :: {pack.Msgs[i]} 0 <= i && i < len(pack.Msgs) ==> msgBeginTs(pack.Msgs[i]) == old(msgBeginTs(pack.Msgs[i])) && msgEndTs(pack.Msgs[i]) == old(msgEndTs(pack.Msgs[i])))
+//@   ensures [every-message-lands-just-above-the-new-time] result && old(resetWf(pack, newTimestamp)) ==> (forall i int :: {pack.Msgs[i]} 0 <= i && i < len(pack.Msgs) ==> msgBeginTs(pack.Msgs[i]) > newTimestamp && msgBeginTs(pack.Msgs[i]) <= newTimestamp + i + 1 && msgEndTs(pack.Msgs[i]) == msgBeginTs(pack.Msgs[i]) && msgPosition(pack.Msgs[i]) != nil && msgPosition(pack.Msgs[i]).Timestamp == msgBeginTs(pack.Msgs[i]))
+//@   ensures [pack-bounds-are-the-first-and-last-message-time] result && old(resetWf(pack, newTimestamp)) ==> pack.BeginTs == msgBeginTs(pack.Msgs[0]) && pack.EndTs == msgBeginTs(pack.Msgs[len(pack.Msgs) - 1])
+//@   ensures [the-pack-ends-above-the-new-time] result && old(newTimestamp + len(pack.Msgs) < 18446744073709551615) ==> pack.EndTs > newTimestamp && pack.BeginTs > newTimestamp && pack.BeginTs <= pack.EndTs && pack.EndTs <= newTimestamp + len(pack.Msgs)
+//@   ensures [equal-stays-equal-and-later-stays-later] result && old(resetWf(pack, newTimestamp)) ==> (forall i int :: {pack.Msgs[i]} 1 <= i && i < len(pack.Msgs) ==> (old(msgBeginTs(pack.Msgs[i])) == old(msgBeginTs(pack.Msgs[i - 1])) ==> msgBeginTs(pack.Msgs[i]) == msgBeginTs(pack.Msgs[i - 1])) && (old(msgBeginTs(pack.Msgs[i])) != old(msgBeginTs(pack.Msgs[i - 1])) ==> msgBeginTs(pack.Msgs[i]) > msgBeginTs(pack.Msgs[i - 1])))
+//@   ensures [positions-carry-the-pack-bounds] result && old(resetWf(pack, newTimestamp)) ==> (forall k int :: {pack.StartPositions[k]} 0 <= k && k < len(pack.StartPositions) ==> pack.StartPositions[k].Timestamp == pack.BeginTs) && (forall k int :: {pack.EndPositions[k]} 0 <= k && k < len(pack.EndPositions) ==> pack.EndPositions[k].Timestamp == pack.EndTs)
+//@   ensures [the-message-list-fits-in-memory] result ==> len(pack.Msgs) <= 72057594037927936
+//@   ensures [the-message-list-itself-is-untouched] pack.Msgs == old(pack.Msgs) && pack.StartPositions == old(pack.StartPositions) && pack.EndPositions == old(pack.EndPositions)
+//@   modifies pack.BeginTs, pack.EndTs, msgstream.InsertMsg.BaseMsg, msgstream.DeleteMsg.BaseMsg, msgstream.DropCollectionMsg.BaseMsg, msgstream.DropPartitionMsg.BaseMsg, msgstream.ImportMsg.BaseMsg, msgpb.InsertRequest.Timestamps, msgpb.DeleteRequest.Timestamps, msgpb.MsgPosition.Timestamp, fresh([]uint64), fresh(msgpb.MsgPosition.*)
+//@   loop 1 invariant preservedArrays(uint64) && freshRef2(deltas) && len(deltas) == len(pack.Msgs) && deltasBounded(deltas, rangeindex)
+//@   loop 1 invariant old(resetWf(pack, newTimestamp)) ==> (rangeindex >= 0 ==> lastTS == old(msgBeginTs(pack.Msgs[rangeindex]))) && deltasOk(pack, deltas, rangeindex)
+//@   loop 2 invariant posFramed() && preservedArrays(uint64) && freshRef2(deltas) && len(deltas) == len(pack.Msgs) && deltasBounded(deltas, len(pack.Msgs) - 1) && (old(resetWf(pack, newTimestamp)) ==> deltasOk(pack, deltas, len(pack.Msgs) - 1))
+//@   loop 2 invariant old(resetWf(pack, newTimestamp)) ==> (forall j int :: {pack.Msgs[j]} 0 <= j && j <= rangeindex ==> msgBeginTs(pack.Msgs[j]) == newTimestamp + deltas[j])
+//@   loop 2 invariant old(resetWf(pack, newTimestamp)) ==> (forall j int :: {pack.Msgs[j]} 0 <= j && j <= rangeindex ==> msgEndTs(pack.Msgs[j]) == newTimestamp + deltas[j])
+//@   loop 2 invariant old(resetWf(pack, newTimestamp)) ==> (forall j int :: {pack.Msgs[j]} 0 <= j && j <= rangeindex ==> msgPosition(pack.Msgs[j]) != nil && freshRef(msgPosition(pack.Msgs[j])))
+//@   loop 2 invariant old(resetWf(pack, newTimestamp)) ==> (forall j int :: {pack.Msgs[j]} 0 <= j && j <= rangeindex ==> msgPosition(pack.Msgs[j]).Timestamp == newTimestamp + deltas[j])
+//@   loop 3 invariant posFramed() && preservedArrays(uint64) && old(resetWf(pack, newTimestamp)) ==> (forall j int :: {pack.Msgs[j]} 0 <= j && j < len(pack.Msgs) ==> msgPosition(pack.Msgs[j]).Timestamp == newTimestamp + deltas[j])
+//@   loop 3 invariant forall k int :: {pack.StartPositions[k]} 0 <= k && k <= rangeindex ==> pack.StartPositions[k].Timestamp == pack.BeginTs
+//@   loop 4 invariant posFramed() && preservedArrays(uint64) && old(resetWf(pack, newTimestamp)) ==> (forall j int :: {pack.Msgs[j]} 0 <= j && j < len(pack.Msgs) ==> msgPosition(pack.Msgs[j]).Timestamp == newTimestamp + deltas[j])
+//@   loop 4 invariant old(resetWf(pack, newTimestamp)) ==> (forall k int :: {pack.StartPositions[k]} 0 <= k && k < len(pack.StartPositions) ==> pack.StartPositions[k].Timestamp == pack.BeginTs)
+//@   loop 4 invariant forall k int :: {pack.EndPositions[k]} 0 <= k && k <= rangeindex ==> pack.EndPositions[k].Timestamp == pack.EndTs
+
+// ---- C03: the per-channel clock (tsManager) ------------------------------------------------------------
+// cts: largest time seen on the downstream channel, lts: last tick sent.  Every function that touches them keeps
+//   lts <= cts  and never lowers either (the channel's critical sections are serialised by channelTSLocks[k]).
+//@ spec tsWf(m *tsManager) bool = m != nil && m.channelTS2 != nil && m.channelTSLocks != nil && (forall k string :: {cmHas(m.channelTS2, k)} cmHas(m.channelTS2, k) ==> cmGet(m.channelTS2, k) != nil)
+//@ spec tsCts(m *tsManager, k string) uint64 = ite(cmHas(m.channelTS2, k), cmGet(m.channelTS2, k).cts, 0)
+//@ spec tsLts(m *tsManager, k string) uint64 = ite(cmHas(m.channelTS2, k), cmGet(m.channelTS2, k).lts, 0)
+
+//@ func (*tsManager).CollectTS
+//@   props C03
+//@   requires tsWf(m)
+//@   ensures [well-formed-after] tsWf(m)
+//@   ensures [the-channel-clock-becomes-the-larger-of-the-two] (currentTS == 18446744073709551615 ==> tsCts(m, channelName) == old(tsCts(m, channelName))) && (currentTS != 18446744073709551615 ==> tsCts(m, channelName) == ite(old(tsCts(m, channelName)) >= currentTS, old(tsCts(m, channelName)), currentTS))
+//@   ensures [the-last-tick-is-untouched] tsLts(m, channelName) == old(tsLts(m, channelName))
+//@   modifies tsInfo.cts, umaps(string;*tsInfo), umaps(string;uint64), fresh(tsInfo.*)
+
+
+//@ func (*tsManager).GetMaxTS
+//@   props C03
+//@   requires tsWf(m)
+//@   ensures result0 == tsCts(m, channelName) && result1 == cmHas(m.channelTS2, channelName)
+//@   modifies nothing
+
+//@ func (*tsManager).UnsafeGetMaxTS
+//@   props C03
+//@   requires tsWf(m)
+//@   ensures result0 == tsCts(m, channelName) && result1 == cmHas(m.channelTS2, channelName)
+//@   modifies nothing
+//@   inline
+
+//@ func (*tsManager).UnsafeGetLastSendTS
+//@   props C03
+//@   requires tsWf(m)
+//@   ensures result0 == tsLts(m, channelName) && result1 == cmHas(m.channelTS2, channelName)
+//@   modifies nothing
+//@   inline
+
+// records a sent tick: lts becomes the tick, the clock is raised to it if it was behind
+//@ func (*tsManager).UnsafeUpdateTSInfo
+//@   props C03
+//@   requires tsWf(m)
+//@   ensures [well-formed-after] tsWf(m)
+//@   ensures [the-last-tick-is-the-one-sent] cmHas(m.channelTS2, channelName) ==> tsLts(m, channelName) == sendTS
+//@   ensures [the-clock-covers-the-tick-and-never-goes-back] cmHas(m.channelTS2, channelName) ==> tsCts(m, channelName) >= sendTS && tsCts(m, channelName) >= old(tsCts(m, channelName))
+//@   inline
+
+// lets the caller re-shift its pack when an earlier tick overtook it: the callback runs only if lts >= beginTS, and
+// its result becomes the clock
+//@ func (*tsManager).UnsafeUpdatePackTS
+//@   props C03
+//@   requires tsWf(m)
+//@   funcparam updatePackTSFunc(newTS)
+//@   funcparam updatePackTSFunc ensures result1 ==> result0 >= newTS
+//@   funcparam updatePackTSFunc modifies * except tsInfo.* tsManager.* umaps(string;*tsInfo)
+//@   ensures [the-clock-never-goes-back] tsCts(m, channelName) >= old(tsCts(m, channelName))
+//@   ensures [the-last-tick-is-untouched] tsLts(m, channelName) == old(tsLts(m, channelName))
+//@   inline
+
+//@ func (*tsManager).InitTSInfo
+//@   props C03
+//@   requires tsWf(m) && m.targetChannelChans != nil
+//@   ensures [well-formed-after] tsWf(m)
+//@   ensures [the-channel-clock-never-goes-back] tsCts(m, replicateID + "." + channelName) >= old(tsCts(m, replicateID + "." + channelName))
+//@   ensures [resume-floor] c != 18446744073709551615 ==> tsCts(m, replicateID + "." + channelName) >= c
+//@   ensures [the-last-tick-is-untouched] tsLts(m, replicateID + "." + channelName) == old(tsLts(m, replicateID + "." + channelName))
